@@ -156,6 +156,30 @@ func (w *c18World) openFile(name, text string) []protocol.Diagnostic {
 	return p.Diagnostics
 }
 
+// openAfter: cur.journal is first open with every name it uses declared at its top, and
+// analysed (whatever the server keeps of those declarations is in place); then the
+// declarations are deleted by a change, the names still being used. Returns the diagnostics of
+// the final text.
+func (w *c18World) openAfter(prevDecls, text string) []protocol.Diagnostic {
+	_ = w.openFile("cur.journal", prevDecls+text)
+	zzNotify(w.s, func() {
+		_ = w.s.DidChange(w.ctx, &protocol.DidChangeTextDocumentParams{
+			TextDocument:   protocol.VersionedTextDocumentIdentifier{TextDocumentIdentifier: protocol.TextDocumentIdentifier{URI: w.uri}},
+			ContentChanges: []protocol.TextDocumentContentChangeEvent{{Text: text}},
+		})
+	})
+	if zzverif.Engine() {
+		c18Settle()
+	} else {
+		w.s.publishDiagnostics(w.ctx, w.uri, text)
+	}
+	p := w.cl.last(w.uri)
+	if p == nil {
+		return nil
+	}
+	return p.Diagnostics
+}
+
 type c18D struct {
 	line uint32
 	code string
@@ -280,7 +304,12 @@ func verifC18Accounts(deep bool) {
 	if zzverif.Choice("scratch", 2) == 1 {
 		w.scratch("account " + p1 + "\naccount " + p2 + "\naccount other:acct\n")
 	}
-	got := w.open(cur)
+	var got []protocol.Diagnostic
+	if deep && zzverif.Choice("prev", 2) == 1 { // quick tier: the commodities harness takes this step
+		got = w.openAfter("account "+p1+"\naccount "+p2+"\naccount other:acct\n", cur)
+	} else {
+		got = w.open(cur)
+	}
 
 	// scope of the rule: current file, its include tree, or its workspace
 	var inScope []string
@@ -391,7 +420,12 @@ func verifC18Commodities(deep bool) {
 	if zzverif.Choice("scratch", 2) == 1 {
 		w.scratch("commodity USD\ncommodity EUR\ncommodity $\n")
 	}
-	got := w.open(cur)
+	var got []protocol.Diagnostic
+	if zzverif.Choice("prev", 2) == 1 {
+		got = w.openAfter("commodity USD\ncommodity EUR\ncommodity $\n", cur)
+	} else {
+		got = w.open(cur)
+	}
 	if !ws && zzverif.Known(c18ClsIncl) && place == c18Inc {
 		zzverif.Reach("kf:" + c18ClsIncl)
 		return
